@@ -1,4 +1,7 @@
 import H3.Lemmas.E2ECompose
+import H3.Lemmas.E2ESplit
+import H3.Lemmas.E2EInter
+import H3.Lemmas.E2EPolls
 import H3.Props.C12
 import H3.Props.C14
 /-! # C01 — end-to-end message fidelity (composition theorem)
@@ -22,8 +25,14 @@ Property theorems only.  Glue: `H3.E2E` (`Model/E2E.lean`) — `Message`, `wire`
   completeness direction (own wire fields are accepted, with the same parts) is proved here
   (`recvRequest_sent`, `recvResponse_sent`, `recvTrailers_sent`).
 
+* C07 (`H3.Iso`: the product of request machines sharing the error cell, deliveries and polls as
+  events of one history, the driver's error side; `run_decomposes`, `polled_run` behind
+  `C07_healthy_stream_delivers_polled`): `C01_end_to_end_interleaved`;
+* `split()` (`Model/Split.lean`): `C01_split_anywhere`.
+
 Assumptions that stay (each explicit in the statements): the `http` crate parameter `H` with the
-round-trip facts `PseudoBack` (and `HttpRoundTrip` for "same scheme/authority/path"); R-14 (calls
+laws `HttpLaws` (C12) and `HttpRoundTrip` — from which `HeadOk`/`PseudoBack` ("the head survives the
+trip") are DERIVED for heads made of values of the crate (`HeadValues`, `C01_head_survives`); R-14 (calls
 awaited: `Awaited`); R-T (transport chunks non-empty, a delivery that arrives after a poll shows as
 `pend` in the script); the receiver's `max_field_section_size` (C10); a message the sender's own
 `http::HeaderMap` can hold (`Holdable`: at most 24576 distinct names, any number of values — the
@@ -231,38 +240,37 @@ theorem C01_pseudo_back_of_laws (H : Http) (L : HttpLaws H) (R : HttpRoundTrip H
     (ha : ∀ a, uri.authority = some a → ∃ w, H.parseAuthority w = some a)
     (hp : ∀ x, (Pseudo.request method uri ext).path = some x → ∃ w, H.parsePath w = some x)
     (hx : ∀ x, (Pseudo.request method uri ext).protocol = some x → parseProtocol x = some x) :
-    PseudoBack H (Pseudo.request method uri ext) := by
-  refine ⟨?_, ?_, ?_, ?_, ?_, hx⟩
-  · intro v hv
-    have : (Pseudo.request method uri ext).method = some method := rfl
-    rw [this] at hv; cases hv; exact hm
-  · intro s h
-    obtain ⟨w, hw⟩ := hs s h
-    exact R.scheme_print_parse w s hw
-  · intro a h
-    obtain ⟨w, hw⟩ := ha a h
-    have := L.authority_as_str w a hw
-    rw [this] at hw ⊢
-    exact hw
-  · intro x h
-    obtain ⟨w, hw⟩ := hp x h
-    exact R.path_print_parse w x hw
-  · intro st h
-    have : (Pseudo.request method uri ext).status = none := rfl
-    rw [this] at h; cases h
+    PseudoBack H (Pseudo.request method uri ext) :=
+  pseudoBack_of_laws H L R method uri ext hm hs ha hp hx
+
+/-- **The head survives the trip — from the laws of the `http` crate, not as a hypothesis.**  Let the
+    head of `m` be made of values of the crate (`HeadValues`: a token as method; scheme, authority,
+    path-and-query that the crate's own parsers produced; a `Protocol` h3 knows; `Host` values that
+    agree; a status 100…999), and let the sender accept `m` (`headerOf m = ok`).  Under `HttpLaws`
+    (C12) and `HttpRoundTrip` — parse-of-print is the identity for the crate's `Scheme`, `Authority`,
+    `PathAndQuery`; scheme + authority + path always build, an authority alone builds (the
+    authority-form target of a plain CONNECT); a built `Uri` has the parts it was built from —
+    `HeadOk` holds, and what the receiving application is handed is `expectedHead m`: the same
+    method, `:scheme` / `:authority` / `:path` as sent (`C01_delivered_parts`), the same `Protocol`,
+    the header map the sender filled; resp. the same status. -/
+theorem C01_head_survives (H : Http) (L : HttpLaws H) (R : HttpRoundTrip H) (role : Role) (m : Message)
+    (h : Header) (hh : headerOf m = .ok h) (hv : HeadValues H role m) :
+    HeadOk H role m (expectedHead m) :=
+  headOk_of_values H L R role m h hh hv
 
 /-! ## 4. end to end -/
 
 /-- **`end_to_end`** (requests: `role = server`, the message head is a request; responses:
-    `role = client`, the head is a status — `HeadOk` ties the two).  The sender submits `m` through
+    `role = client`, the head is a status — `HeadValues` ties the two).  The sender submits `m` through
     awaited calls under ANY write-acceptance scripts; the transport carries what the sender's stream
     was handed, cut into ANY non-empty chunks, with `pend` anywhere, then FIN; the receiver follows
-    the documented pattern.  Then the receiving application is handed the head `out` (same method,
-    scheme, authority, path / same status: `C01_delivered_parts`), the header values in the same
-    per-name order, the identical body byte sequence, the same trailers, and exactly one clean end;
-    no error is recorded on either side. -/
-theorem C01_end_to_end (H : Http) (role : Role) (m : Message) (h : Header) (out : HeadOut)
-    (L : Nat) (hwf : WellFormed m h) (hfit : Fits m h L) (hhead : HeadOk H role m out)
+    the documented pattern.  Then the receiving application is handed the head `expectedHead m` (same
+    method, scheme, authority, path / same status: `C01_delivered_parts`), the header values in the
+    same per-name order, the identical body byte sequence, the same trailers, and exactly one clean
+    end; no error is recorded on either side.  That the head survives is derived from the laws of
+    the `http` crate (`C01_head_survives`); no hypothesis speaks about the receiver's parsers. -/
+theorem C01_end_to_end (H : Http) (L' : HttpLaws H) (R : HttpRoundTrip H) (role : Role) (m : Message)
+    (h : Header) (L : Nat) (hwf : WellFormed m h) (hfit : Fits m h L) (hv : HeadValues H role m)
     (g : Bool) (gN : Nat) (hg : gN < GREASE_RANGE_END) (scripts : List (List Nat))
     (haw : Awaited (freshStream g) (callsOf (framesOf m h) gN scripts))
     (script : List Ev) (hsc : ScriptOK script) (hnr : NoReset script) (hfin : hasFin script = true)
@@ -270,13 +278,14 @@ theorem C01_end_to_end (H : Http) (role : Role) (m : Message) (h : Header) (out 
       (sendAll (freshStream g) (callsOf (framesOf m h) gN scripts)).log) :
     (sendAll (freshStream g) (callsOf (framesOf m h) gN scripts)).fin = true ∧
     deliver H role L script =
-      { head := some out, body := m.pieces.flatten, cleanEnd := true, ends := 1,
+      { head := some (expectedHead m), body := m.pieces.flatten, cleanEnd := true, ends := 1,
         trailers := some (m.trailers.map mapOf), env := {} } := by
   obtain ⟨a, b, _⟩ := sendAll_message (framesOf m h) (frames_sendable m h hwf) g gN hg scripts haw
   refine ⟨b, ?_⟩
   have hb' : evBytes (upToFin script) = streamBytes m (if g then some gN else none) := by
     rw [hbytes, a, streamBytes, wire_eq m h hwf.header]
-  refine deliver_streamBytes H role m h out L hwf hfit hhead _ ?_ script hsc hnr hfin hb'
+  refine deliver_streamBytes H role m h _ L hwf hfit (headOk_of_values H L' R role m h hwf.header hv) _ ?_
+    script hsc hnr hfin hb'
   intro n hn
   cases g with
   | false => simp at hn
@@ -285,13 +294,17 @@ theorem C01_end_to_end (H : Http) (role : Role) (m : Message) (h : Header) (out 
 /-! ## 5. interleavings -/
 
 /-  Full statement of the design (`interleaving_irrelevant`): every interleaving of client task,
-    server task, drivers and deliveries is equivalent to a sequential one.  Proved below: what the
-    models support.  Not covered (hence `_partial`): the connection driver (control stream, GOAWAY:
-    C04/C08/C09 models) is not a component of the products used here — the cells it shares with
-    request streams are the error cell (covered: part (b)), the write-once peer settings (here the
-    parameters `L` / `applied`) and the closing flag (C08/C09); deliveries are part of a stream's
-    transport script (`pend` = a poll before the data arrived, R-T); real tokio/Quinn scheduling is
-    not modelled (granularity: one poll of one task or one transport event). -/
+    server task, drivers and deliveries is equivalent to a sequential one.  What is proved:
+    `C01_interleaving_irrelevant_partial` (the machines' projections and commutations),
+    `C01_split_anywhere` (split streams) and `C01_end_to_end_interleaved` (the link to delivery: in ANY
+    interleaving each receiver's digest is its own message).  What really remains, hence `_partial`:
+    (1) of the connection driver only the error side is a component of the product
+    (`H3.Iso.HEv.drive`: it closes the connection when it finds the error cell filled — which never
+    happens in these runs); its other work — control stream, SETTINGS (here the parameters `L` /
+    `applied`, write-once), GOAWAY and the closing flag (C08/C09), accepting streams (C04) — is
+    modelled in those properties' machines, not in this product; (2) real tokio/Quinn scheduling is
+    not modelled: the granularity is one poll of one task or one transport event, wakers are not
+    modelled (a task that is `Pending` is polled again by the schedule, R-T). -/
 
 /-- **`interleaving_irrelevant`.**
     (a) Send side, the connection machine of C14 (`H3.SendSide.step`: API calls of any stream,
@@ -299,12 +312,17 @@ theorem C01_end_to_end (H : Http) (role : Role) (m : Message) (h : Header) (out 
     buffer in flight, FIN — of request stream `sid` after ANY run is the result of the steps that
     address `sid`, in their order; so two runs with the same steps for `sid` give it the same log,
     whatever else is interleaved.
-    (b) Receive side, any number of request streams sharing the connection error cell: for ANY
+    (b) Receive side with scripted transports (a delivery that arrives after a poll is a `pend` in the
+    stream's script), any number of request streams sharing the connection error cell: for ANY
     schedule of polls of their calls, if each stream run alone answers no connection error, then in
     the interleaved run each stream gets exactly the answers, and ends in exactly the state, of its
-    isolated run, and the cell is untouched; two polls of different streams commute.
-    (c) A split stream: a step of the send half and a poll of the receive half act on disjoint
-    components and commute. -/
+    isolated run, and the cell is untouched; two polls of different streams commute.  (The link to
+    delivery, with deliveries as events of the history, is `C01_end_to_end_interleaved`.)
+    (c) One request stream, whole or split (`H3.E2E.Handle`): a step of the task that owns the send
+    side and a poll of the task that owns the receive side commute — same answer, same state of the
+    receive machine (buffer, decoder, `remaining_data`, remembered trailers, error cell, events to
+    come), same state of the send machine (bytes taken, buffer in flight, FIN, grease flag); for the
+    split itself see `C01_split_anywhere`. -/
 theorem C01_interleaving_irrelevant_partial :
     (∀ (st : State) (steps : List Step) (sid : Nat) (s : Stream), sid % 4 = 0 →
       getStream st.streams sid = some s →
@@ -323,16 +341,22 @@ theorem C01_interleaving_irrelevant_partial :
       ((k.poll H j cj).2.poll H i ci).1 = (k.poll H i ci).1 ∧
       ((k.poll H i ci).2.poll H j cj).2.cell = ((k.poll H j cj).2.poll H i ci).2.cell ∧
       ∀ x, ((k.poll H i ci).2.poll H j cj).2.comps x = ((k.poll H j cj).2.poll H i ci).2.comps x) ∧
-    (∀ (H : Hdr) (cell : Option Nat) (h : Halves) (op : SOp) (call : RCall),
-      (Halves.recvPoll H cell (h.sendOp op) call).1 = (Halves.recvPoll H cell h call).1 ∧
-      (Halves.recvPoll H cell (h.sendOp op) call).2.1 = (Halves.recvPoll H cell h call).2.1 ∧
-      (Halves.recvPoll H cell (h.sendOp op) call).2.2 = ((Halves.recvPoll H cell h call).2.2).sendOp op) := by
+    (∀ (HL : Nat → Hdr) (h : Handle) (op : SOp) (call : RCall),
+      ((h.sendOp op).recvPoll HL call).1 = (h.recvPoll HL call).1 ∧
+      ((h.sendOp op).recvPoll HL call).2.rx = ((h.recvPoll HL call).2.sendOp op).rx ∧
+      ((h.sendOp op).recvPoll HL call).2.tx = ((h.recvPoll HL call).2.sendOp op).tx ∧
+      ((h.sendOp op).recvPoll HL call).2.rx = (h.recvPoll HL call).2.rx ∧
+      ((h.sendOp op).recvPoll HL call).2.tx = op.apply h.tx) := by
   refine ⟨fun st steps sid s hs h => getStream_run steps st sid s hs h, ?_,
     fun H σ k hk => conn_run_projects H σ k hk,
-    fun H k i j hij ci cj hi hj => conn_polls_commute H k i j hij ci cj hi hj,
-    fun H cell h op call => halves_commute H cell h op call⟩
-  intro st steps steps' sid s hs h heq
-  rw [getStream_run steps st sid s hs h, getStream_run steps' st sid s hs h, heq]
+    fun H k i j hij ci cj hi hj => conn_polls_commute H k i j hij ci cj hi hj, ?_⟩
+  · intro st steps steps' sid s hs h heq
+    rw [getStream_run steps st sid s hs h, getStream_run steps' st sid s hs h, heq]
+  · intro HL h op call
+    obtain ⟨a, b⟩ := send_recv_commute HL h op call
+    refine ⟨a, b.rx, b.tx, ?_, ?_⟩
+    · rw [b.rx, Handle.sendOp_rx]
+    · rw [Handle.recvPoll_tx, Handle.sendOp_tx]
 
 /-- (a) applied to a message: in ANY run of the sender's connection machine whose steps for
     stream `sid` are the awaited calls of `m` with their transport polls — other streams' calls and
@@ -350,6 +374,176 @@ theorem C01_wire_of_send_in_any_run (m : Message) (h : Header) (hwf : WellFormed
   refine ⟨_, getStream_run steps st sid _ hsid hfresh, ?_, ?_⟩
   · rw [hproj, ← sendAll_eq_runS, a, streamBytes, wire_eq m h hwf.header]
   · rw [hproj, ← sendAll_eq_runS, b]
+
+/-- **(b) linked to delivery: `recvPattern` inside any schedule of single polls.**  The receive side
+    of a connection as in (b) — any number of request streams sharing the error cell, scripted
+    transports — under ANY schedule `σ` of single polls of single calls.  Every stream that is
+    scheduled at all carries a well-formed message (`Carries`: fresh component; a script with the
+    stream bytes of `m` in any non-empty chunks, `pend` anywhere, FIN; within the limit; the head
+    survives) and the polls scheduled for it are the polls the documented pattern makes
+    (`patternCalls`: each call polled again while it answers `Pending` and events are left — `await`
+    taken apart into its single polls).  Then for every such stream, in the interleaved run, the
+    answers it got — the `Pending` ones dropped — are exactly the answers of `recvPattern` on its own
+    script: the head, pieces of data, one `Ok(None)`, the trailers or `None`; decoded
+    (`deliver`), that is its own message; and the error cell is untouched.  No hypothesis about
+    errors: that no stream answers a connection error follows from the messages being well-formed
+    (`recvPattern_valid`), which discharges the hypothesis of `conn_run_projects`. -/
+theorem C01_recv_of_wire_in_any_schedule (H : Http) (role : Role) (L : Nat) (σ : List (Nat × RCall))
+    (k : Conn) (hcell : k.cell = none)
+    (hσ : ∀ i, callsFor σ i = [] ∨ ∃ m h out g script, Carries H role L k σ i m h out g script) :
+    (∀ i m h out g script, Carries H role L k σ i m h out g script →
+      settled (answersFor (Conn.run (fun _ => hdrOf H role L) k σ).1 i) =
+        traceAnswers (recvPattern role (hdrOf H role L) script) ∧
+      deliver H role L script =
+        { head := some out, body := m.pieces.flatten, cleanEnd := true, ends := 1,
+          trailers := some (m.trailers.map mapOf), env := {} }) ∧
+    (Conn.run (fun _ => hdrOf H role L) k σ).2.cell = none := by
+  have hno : ∀ i, ∀ a ∈ (isolated (hdrOf H role L) k.cell (k.comps i) (callsFor σ i)).1, isErrConn a = false := by
+    intro i a ha
+    rcases hσ i with h0 | ⟨m, h, out, g, script, c⟩
+    · rw [h0] at ha; cases ha
+    · exact (c.isolated hcell).2 a ha
+  obtain ⟨hall, hc⟩ := conn_run_projects (fun _ => hdrOf H role L) σ k hno
+  refine ⟨?_, by rw [hc, hcell]⟩
+  intro i m h out g script c
+  refine ⟨?_, deliver_streamBytes H role m h out L c.wf c.fits c.head g c.grease script c.scriptOK c.noReset
+    c.fin c.bytes⟩
+  rw [(hall i).1]
+  exact (c.isolated hcell).1
+
+/-! ## 6. split streams -/
+
+/-- **`split_anywhere`.**  `split()` is modelled (`Model/Split.lean`): it consumes the whole stream
+    object and builds two — the receive half is handed the buffered chunks, the end-of-stream flag,
+    the decoder's memo, `remaining_data`, the remembered trailers and the size limit; the send half
+    the send side, and fresh receive fields.  Then:
+    (a) the documented receive pattern (head call, `recv_data` until `None`, `recv_trailers`; every call
+    awaited = polled again after `Pending`), for both roles, on a handle that the application splits
+    just before its `k`-th call — ANY `k`: before the head call, between two `recv_data` calls in the
+    middle of a DATA frame, after the body's end with the trailers put aside, or never — answers what
+    the pattern answers on the unsplit stream and leaves the receive machine in the same state; the
+    send side is not touched;
+    (b) on a stream just opened that is `recvPattern` — so every theorem about `recvPattern` /
+    `deliver` (`C01_recv_of_wire`, `C01_end_to_end`) holds verbatim with a split anywhere;
+    (c) ANY interleaving of receive polls, send steps (calls and transport polls) and `split()`s: the
+    receive polls are answered, and leave the receive machine, as if made alone on the stream as it
+    was; the send side is what the send steps alone make of it — the two tasks of a split stream
+    are independent, and so are the two uses of a whole one;
+    (d) `split()` itself commutes with a receive poll and with a send step. -/
+theorem C01_split_anywhere :
+    (∀ (role : Role) (HL : Nat → Hdr) (k : Option Nat) (h : Handle),
+      (recvPatternH role HL k h).1 = (recvPatternFrom role (HL h.maxSize) h.rx).1 ∧
+      (recvPatternH role HL k h).2.rx = (recvPatternFrom role (HL h.maxSize) h.rx).2 ∧
+      (recvPatternH role HL k h).2.tx = h.tx) ∧
+    (∀ (role : Role) (HL : Nat → Hdr) (k : Option Nat) (script : List Ev) (L : Nat) (tx : Stream),
+      (recvPatternH role HL k (.whole (Whole.fresh script L tx))).1 = recvPattern role (HL L) script) ∧
+    (∀ (HL : Nat → Hdr) (acts : List Act) (h : Handle),
+      (Handle.run HL h acts).1 = (pollsRun (HL h.maxSize) h.rx (acts.filterMap Act.recv?)).1 ∧
+      (Handle.run HL h acts).2.rx = (pollsRun (HL h.maxSize) h.rx (acts.filterMap Act.recv?)).2 ∧
+      (Handle.run HL h acts).2.tx = runS h.tx (acts.filterMap Act.send?)) ∧
+    (∀ (HL : Nat → Hdr) (h : Handle) (call : RCall) (op : SOp),
+      (h.split.recvPoll HL call).1 = (h.recvPoll HL call).1 ∧
+      (h.split.recvPoll HL call).2.rx = (h.recvPoll HL call).2.split.rx ∧
+      (h.split.recvPoll HL call).2.tx = (h.recvPoll HL call).2.split.tx ∧
+      (h.split.sendOp op).rx = (h.sendOp op).split.rx ∧ (h.split.sendOp op).tx = (h.sendOp op).split.tx) := by
+  refine ⟨?_, ?_, ?_, ?_⟩
+  · intro role HL k h
+    obtain ⟨a, b, _, d⟩ := recvPatternH_sim role HL k h
+    exact ⟨a, b, d⟩
+  · intro role HL k script L tx
+    rw [(recvPatternH_sim role HL k _).1]
+    exact recvPatternFrom_fresh role (HL L) script
+  · intro HL acts h
+    obtain ⟨a, b, _, d⟩ := Handle.run_projects HL acts h
+    exact ⟨a, b, d⟩
+  · intro HL h call op
+    obtain ⟨a, b⟩ := split_recv_commute HL h call
+    have c := split_send_commute h op
+    exact ⟨a, b.rx, b.tx, c.rx, c.tx⟩
+
+/-- `C01_recv_of_wire` with a `split()` anywhere: the receiving application splits its stream just
+    before ANY of its calls (or never); what it is handed is the message all the same. -/
+theorem C01_recv_of_wire_split (H : Http) (role : Role) (m : Message) (h : Header) (out : HeadOut)
+    (L : Nat) (hwf : WellFormed m h) (hfit : Fits m h L) (hhead : HeadOk H role m out)
+    (g : Option Nat) (hg : ∀ n, g = some n → n < GREASE_RANGE_END)
+    (script : List Ev) (hsc : ScriptOK script) (hnr : NoReset script) (hfin : hasFin script = true)
+    (hbytes : evBytes (upToFin script) = streamBytes m g) (k : Option Nat) (tx : Stream) :
+    deliverOf H role L (recvPatternH role (hdrOf H role) k (.whole (Whole.fresh script L tx))).1 =
+      { head := some out, body := m.pieces.flatten, cleanEnd := true, ends := 1,
+        trailers := some (m.trailers.map mapOf), env := {} } := by
+  rw [C01_split_anywhere.2.1 role (hdrOf H role) k script L tx]
+  exact deliver_streamBytes H role m h out L hwf hfit hhead g hg script hsc hnr hfin hbytes
+
+/-! ## 7. end to end, interleaved -/
+
+/-- **`end_to_end_interleaved`.**  One connection, seen from both ends, run through ONE interleaved
+    sequence `evs` of: steps of the sending endpoint's connection machine (C14: API calls and
+    transport polls of any stream under any acceptance pattern, GOAWAY, the grease stream) and
+    events of the receiving endpoint (C07's product: deliveries on, and polls of the calls of, any
+    request stream; polls of its driver) — in ANY order.  `xs`: any number of exchanges
+    (`Exchange.Ok`): a well-formed message within the receiver's limit, its head made of values of the
+    `http` crate; among the sender's steps those of its stream are the awaited calls of the message
+    with their transport polls (any acceptance scripts, R-14); the receiver's stream is delivered
+    the bytes the sender's transport was handed, cut into non-empty chunks in ANY way, then FIN;
+    the receiving application follows the documented pattern, every call polled again after
+    `Pending`, its last poll after FIN; deliveries and polls interleaved at will with each other,
+    with the other streams and with the sender's steps.  Every other stream of the receiver's
+    history is such an exchange too, or at least is not told a connection-level error when run alone
+    (any stream-scoped fault is allowed on it: C07).
+
+    Then for EVERY exchange: the sender's stream has been handed exactly the stream bytes of its
+    message and is finished; the receiving application's digest — ALL answers of ALL its polls, the
+    `Pending` ones left out — is its own message: exactly one answer of the head call, the expected
+    head (`expectedHead`: same method, scheme, authority, path, protocol / status, header values in
+    per-name order); the body bytes handed out are the concatenation of the pieces sent; EXACTLY ONE
+    `Ok(None)` among all `recv_data` answers (`ends = 1` is the count of `end_` in the digest), and it
+    is the last; exactly one answer of `recv_trailers`, the trailers sent or `None`; h3 has reset and
+    stopped nothing on the stream.  This is what `deliver` (the awaited `recvPattern`) reports for ANY
+    scripted transport carrying the same bytes.  The error cell is empty and `close` was never called.
+
+    No hypothesis about errors on the exchanges' streams (that they never write the error cell is
+    proved: `healthy_quiet`), none about the receiver's parsers (`C01_head_survives`). -/
+theorem C01_end_to_end_interleaved (H : Http) (L' : HttpLaws H) (R : HttpRoundTrip H) (role : Role)
+    (L fuel : Nat) (xs : List Exchange) (st : State) (evs : List GEv)
+    (hx : ∀ x ∈ xs, x.Ok H role L fuel st (sndOf evs) (rcvOf evs))
+    (hothers : ∀ j ∈ Iso.sidsOf (rcvOf evs), (∃ x ∈ xs, x.sid = j) ∨
+      ∀ o ∈ (Iso.Req.run (isoCfg H role L) none {} (Iso.proj j (rcvOf evs))).2.2, o.isConn = false) :
+    (∀ x ∈ xs,
+      (∃ s, getStream (grun (isoCfg H role L) st {} evs).1.streams x.sid = some s ∧
+        s.log = streamBytes x.m (if x.g then some x.gN else none) ∧ s.fin = true) ∧
+      deliveredOf H role L (Iso.digest (Iso.obsOf x.sid (grun (isoCfg H role L) st {} evs).2.2))
+          (((grun (isoCfg H role L) st {} evs).2.1.get x.sid).rx.env) =
+        { head := some (expectedHead x.m), body := x.m.pieces.flatten, cleanEnd := true, ends := 1,
+          trailers := some (x.m.trailers.map mapOf), env := {} } ∧
+      (Iso.digest (Iso.obsOf x.sid (grun (isoCfg H role L) st {} evs).2.2)).heads.length = 1 ∧
+      (Iso.digest (Iso.obsOf x.sid (grun (isoCfg H role L) st {} evs).2.2)).trailers.length = 1 ∧
+      (∀ script : List Ev, ScriptOK script → NoReset script → hasFin script = true →
+        evBytes (upToFin script) = x.cs.flatten →
+        deliver H role L script =
+          deliveredOf H role L (Iso.digest (Iso.obsOf x.sid (grun (isoCfg H role L) st {} evs).2.2))
+            (((grun (isoCfg H role L) st {} evs).2.1.get x.sid).rx.env))) ∧
+    (grun (isoCfg H role L) st {} evs).2.1.cell = none ∧
+    (grun (isoCfg H role L) st {} evs).2.1.closed = [] := by
+  rw [grun_eq]
+  simp only
+  -- no stream of the history writes the cell
+  have hq : Iso.QuietHist (isoCfg H role L) {} (rcvOf evs) := by
+    intro i
+    by_cases hi : i ∈ Iso.sidsOf (rcvOf evs)
+    · rcases hothers i hi with ⟨x, hxm, rfl⟩ | ho
+      · exact (hx x hxm).quiet L' R
+      · exact Iso.quiet_of_no_connErr _ _ _ ho
+    · rw [Iso.proj_nil_of_not_mem i _ hi]; trivial
+  obtain ⟨hcell, hclosed, _⟩ := Iso.run_decomposes (isoCfg H role L) (rcvOf evs) {} rfl rfl hq
+  refine ⟨fun x hxm => ?_, hcell, hclosed⟩
+  have ok := hx x hxm
+  obtain ⟨hd, h1, h2⟩ := ok.delivered_in L' R hq
+  refine ⟨ok.sent, hd, h1, h2, ?_⟩
+  intro script hsc hnr hfin hbytes
+  rw [hd]
+  obtain ⟨s, hs, hlog, _⟩ := ok.sent
+  exact deliver_streamBytes H role x.m x.h _ L ok.wf ok.fits (ok.headOk L' R) _ ok.grease_ok script hsc hnr hfin
+    (by rw [hbytes, ok.carried s hs, hlog])
 
 /-! ## non-vacuity
 
@@ -492,6 +686,394 @@ example : deliver toy .server 273 (chunked 5 (wire m₁)) = want₁ := by
   obtain ⟨a, b, c, d⟩ := chunked_spec 5 (wire m₁)
   exact C01_recv_of_wire toy .server m₁ h₁ out₁ 273 wf₁ fits₁ headOk₁ none (by intro n h; cases h)
     _ a b c (by rw [d]; simp [streamBytes, greaseBytes])
+
+/-! ### the head from the laws; CONNECT -/
+
+theorem toy_rt : HttpRoundTrip toy where
+  scheme_print_parse := by
+    intro w v h
+    simp only [toy] at h ⊢
+    split at h
+    · rename_i hc; cases h; rw [if_pos hc]
+    · cases h
+  path_print_parse := by
+    intro w v h
+    simp only [toy] at h ⊢
+    split at h
+    · rename_i hc; cases h; rw [if_pos hc]
+    · cases h
+  uri_parts := by
+    intro s a p u h
+    simp only [toy] at h
+    split at h
+    · split at h
+      · cases h; rfl
+      · cases h
+    · cases h
+  uri_builds := by
+    intro s a p _ ha _
+    simp only [toy] at ha ⊢
+    split at ha
+    · rename_i hc; rw [if_pos hc]; rfl
+    · cases ha
+  uri_builds_authority := by
+    intro a ha
+    simp only [toy] at ha ⊢
+    split at ha
+    · rename_i hc; rw [if_pos hc]; rfl
+    · cases ha
+
+theorem values₁ : HeadValues toy .server m₁ :=
+  HeadValues.request m₁ GET ⟨some sHttps, some aCom, some slash⟩ none rfl (by decide)
+    (by intro s h; cases h; exact ⟨sHttps, by decide⟩) (by intro a h; cases h; exact ⟨aCom, by decide⟩)
+    (by intro x h; cases h; exact ⟨slash, by decide⟩) (by intro x h; cases h) (by intro h; cases h) (by decide)
+
+/-- `HeadOk` for `m₁` is a consequence of the laws; what arrives is `out₁` -/
+example : HeadOk toy .server m₁ out₁ := C01_head_survives toy toy_laws toy_rt .server m₁ h₁ wf₁.header values₁
+
+/-- a plain CONNECT: authority-form target `a.com:443`, neither `:scheme` nor `:path` on the wire; the
+    receiving application is handed method, authority and nothing else of a URI -/
+def aPort : List Nat := [97, 46, 99, 111, 109, 58, 52, 52, 51]
+def m₅ : Message :=
+  { head := .request mCONNECT ⟨none, some aPort, none⟩ none
+    headers := [([120], [49])], pieces := [[9, 8], [7]], trailers := none }
+
+example : expectedHead m₅ =
+    .request { method := mCONNECT, uri := { scheme := none, authority := some aPort, path := none },
+               protocol := none, headers := [([120], [[49]])] } := by decide +kernel
+
+example : deliver toy .server 1000 (chunked 3 (wire m₅)) =
+    { head := some (expectedHead m₅), body := [9, 8, 7], cleanEnd := true, ends := 1,
+      trailers := some none, env := {} } := by decide +kernel
+
+/-- ... and the hypotheses of `C01_head_survives` hold for it -/
+example : HeadValues toy .server m₅ :=
+  HeadValues.request m₅ mCONNECT ⟨none, some aPort, none⟩ none rfl (by decide)
+    (by intro s h; cases h) (by intro a h; cases h; exact ⟨aPort, by decide⟩)
+    (by intro x h; cases h) (by intro x h; cases h) (by intro h; cases h) (by decide)
+
+/-! ### split() -/
+
+/-- the transport delivers `wire m₁` so that the first DATA frame (`00 03 01 02 03`) is cut after its
+    first payload byte; the application splits just before its 2nd call (`k = some 1`: after the
+    head, before the first `recv_data`), its 3rd call (`some 2`: between two `recv_data` calls, one
+    payload byte handed out, `remaining_data = 2`, the rest of the frame not yet arrived), its last
+    call (`some 5`: after `recv_data` answered `None` and put the trailers aside) or never — the
+    answers are the same, and what is decoded from them is `want₁` -/
+def script₁ : List Ev :=
+  [.chunk ((wire m₁).take 28), .pend, .chunk (((wire m₁).drop 28).take 3), .chunk ((wire m₁).drop 31), .pend, .fin]
+
+example : ∀ k ∈ [none, some 1, some 2, some 3, some 5, some 6],
+    (recvPatternH .server (hdrOf toy .server) k (.whole (Whole.fresh script₁ 1000 (freshStream false)))).1 =
+      recvPattern .server (hdrOf toy .server 1000) script₁ ∧
+    deliverOf toy .server 1000
+      (recvPatternH .server (hdrOf toy .server) k (.whole (Whole.fresh script₁ 1000 (freshStream false)))).1 = want₁ := by
+  decide +kernel
+
+/-- the stream in the middle of that DATA frame: one payload byte handed out, two to come, one of
+    them buffered -/
+def mid₁ : Whole :=
+  { fs := { buf := [[2]], remaining := 2 }, script := [.chunk [3, 0, 0], .fin], maxSize := 1000,
+    tx := freshStream false }
+
+/-- after `split()` the receive half goes on inside the payload ... -/
+example : ((Handle.whole mid₁).split.recvPoll (hdrOf toy .server) .data).1 = .data [2] ∧
+    ((Handle.whole mid₁).recvPoll (hdrOf toy .server) .data).1 = .data [2] := by decide +kernel
+
+/-- ... which is a property of `Whole.split`, not of the shape of the records: a `split` that starts the
+    receive half with `remaining_data = 0` (`FrameStream::new`, as in the seeded change) reads the
+    payload byte `02` as a frame type and the call fails -/
+example : (Handle.recvPoll (hdrOf toy .server) .data
+      (.halves mid₁.split.1 { mid₁.split.2 with fs := { mid₁.split.2.fs with remaining := 0 } })).1 ≠ .data [2] := by
+  decide +kernel
+
+/-- the send half and the receive half at work in any order: three interleavings of the same send
+    steps and the same receive polls around a `split()` -/
+example :
+    let acts₁ : List Act := [.recv .data, .split, .send (.data [7]), .send (.poll 2), .recv .data, .send (.poll 9)]
+    let acts₂ : List Act := [.send (.data [7]), .recv .data, .send (.poll 2), .send (.poll 9), .recv .data, .split]
+    let acts₃ : List Act := [.split, .send (.data [7]), .send (.poll 2), .send (.poll 9), .recv .data, .recv .data]
+    let h₀ := Handle.whole mid₁
+    (Handle.run (hdrOf toy .server) h₀ acts₁).1 = [.data [2], .data [3]] ∧
+    (Handle.run (hdrOf toy .server) h₀ acts₂).1 = [.data [2], .data [3]] ∧
+    (Handle.run (hdrOf toy .server) h₀ acts₃).1 = [.data [2], .data [3]] ∧
+    (Handle.run (hdrOf toy .server) h₀ acts₁).2.tx.log = [0, 1, 7] ∧
+    (Handle.run (hdrOf toy .server) h₀ acts₂).2.tx.log = [0, 1, 7] ∧
+    (Handle.run (hdrOf toy .server) h₀ acts₃).2.tx.log = [0, 1, 7] := by decide +kernel
+
+/-! ### two exchanges on one connection, everything interleaved -/
+
+/-- two lists taken in turn -/
+def zip2 {α : Type} : List α → List α → List α
+  | [], b => b
+  | a, [] => a
+  | x :: a, y :: b => x :: y :: zip2 a b
+
+def decAwaited : ∀ (s : Stream) (calls : List (SOp × List Nat)), Decidable (Awaited s calls)
+  | _, [] => isTrue trivial
+  | s, c :: r =>
+    have := decAwaited (callS s c) r
+    inferInstanceAs (Decidable (_ ∧ _))
+instance (s : Stream) (calls : List (SOp × List Nat)) : Decidable (Awaited s calls) := decAwaited s calls
+
+/-- the step of the connection machine that a step of stream `sid`'s program is -/
+def stepOf (sid : Nat) : SOp → Step
+  | .headers fs => .sendHeaders sid fs
+  | .data b => .sendData sid b
+  | .finish gN => .finish sid gN
+  | .poll k => .poll sid k
+
+/-- `w` in pieces of `k` bytes -/
+def cut (k : Nat) : Nat → List Nat → List (List Nat)
+  | 0, _ => []
+  | _, [] => []
+  | fuel+1, w => w.take (max k 1) :: cut k fuel (w.drop (max k 1))
+
+/-- a task that is polled after every delivery on its stream: the call it polls is the one the
+    documented pattern is at (`H3.Iso.APhase`), given what it has been answered so far -/
+def sched (cfg : Iso.Cfg) (fuel : Nat) : Iso.APhase → Option Nat → Iso.Req → List Iso.Peer → List Iso.StreamEv
+  | _, _, _, [] => []
+  | .head, cell, r, p :: ps =>
+    .peer p :: .call .head ::
+      sched cfg fuel (Iso.APhase.after .head (Iso.Req.step cfg cell (r.deliver p) (.call .head)).2.2)
+        (Iso.Req.step cfg cell (r.deliver p) (.call .head)).2.1
+        (Iso.Req.step cfg cell (r.deliver p) (.call .head)).1 ps
+  | .body, cell, r, p :: ps =>
+    .peer p :: .call (.body fuel) ::
+      sched cfg fuel (Iso.APhase.after .body (Iso.Req.step cfg cell (r.deliver p) (.call (.body fuel))).2.2)
+        (Iso.Req.step cfg cell (r.deliver p) (.call (.body fuel))).2.1
+        (Iso.Req.step cfg cell (r.deliver p) (.call (.body fuel))).1 ps
+  | .done, cell, r, p :: ps => .peer p :: sched cfg fuel .done cell (r.deliver p) ps
+
+/-- a second request: `POST`-less, one body byte, no trailers -/
+def m₆ : Message :=
+  { head := .request GET ⟨some sHttps, some aCom, some slash⟩ none
+    headers := [([121], [50])], pieces := [[7]], trailers := none }
+def h₆ : Header :=
+  { pseudo := Pseudo.request GET ⟨some sHttps, some aCom, some slash⟩ none, fields := [([121], [[50]])] }
+
+/-- stream 0: `m₁`, the handle owes the grease frame (draw 5), HEADERS trickles out byte by byte with
+    `Pending`s in between, the transport cuts the stream into 5-byte chunks; stream 4: `m₆`, written
+    at once, cut into 3-byte chunks -/
+def x₀ : Exchange :=
+  { sid := 0, m := m₁, h := h₁, g := true, gN := 5
+    scripts := [[1, 0, 1, 0, 0, 2, 3, 100], [5, 5], [0, 2], [1, 1, 1, 1], [3, 3, 3], [2, 0, 100]]
+    cs := cut 5 100 (streamBytes m₁ (some 5)) }
+def x₄ : Exchange :=
+  { sid := 4, m := m₆, h := h₆, g := false, gN := 0, scripts := [[100, 100], [100, 100], []]
+    cs := cut 3 100 (streamBytes m₆ none) }
+
+def st₀ : State :=
+  { server := false, cfg := { grease := true, mfs := 0, wt := false, ec := false, dg := false, wts := 0 }
+    streams := [(0, freshStream true), (4, freshStream false)]
+    built := true, connGrease := false, greaseStreamFlag := false }
+
+def cfg₀ : Iso.Cfg := isoCfg toy .server 1000
+
+/-- the sender's steps: the two programs taken in turn, a GOAWAY in between -/
+def steps₀ : List Step :=
+  zip2 ((opsOf x₀.calls).map (stepOf 0)) (.goaway 0 :: (opsOf x₄.calls).map (stepOf 4))
+
+/-- the receiver's history: each stream's task polled after each of its deliveries; the two streams
+    taken in turn; driver polls at both ends -/
+def hist₀ : List Iso.HEv :=
+  .drive :: zip2 ((sched cfg₀ 100 .head none {} (x₀.cs.map Iso.Peer.chunk ++ [.fin])).map (.on 0))
+    ((sched cfg₀ 100 .head none {} (x₄.cs.map Iso.Peer.chunk ++ [.fin])).map (.on 4)) ++ [.drive]
+
+/-- both ends in one sequence, taken in turn: chunks are delivered while the sender is still writing
+    other parts of the message -/
+def evs₀ : List GEv := zip2 (steps₀.map .snd) (hist₀.map .rcv)
+
+theorem wf₆ : WellFormed m₆ h₆ where
+  header := by decide +kernel
+  regular := by decide +kernel
+  trailersRegular := by intro t ht; cases ht
+  holdable := by decide +kernel
+  trailersHoldable := by intro t ht; cases ht
+  encodable := by decide +kernel
+  trailersEncodable := by intro t ht; cases ht
+  pieces := by
+    intro p hp
+    simp only [m₆, List.mem_cons, List.mem_nil_iff, or_false] at hp
+    subst hp
+    exact ⟨by decide, by intro b hb; revert b; decide⟩
+  blockLen := by decide +kernel
+  trailerLen := by intro t ht; cases ht
+
+theorem values₆ : HeadValues toy .server m₆ :=
+  HeadValues.request m₆ GET ⟨some sHttps, some aCom, some slash⟩ none rfl (by decide)
+    (by intro s h; cases h; exact ⟨sHttps, by decide⟩) (by intro a h; cases h; exact ⟨aCom, by decide⟩)
+    (by intro x h; cases h; exact ⟨slash, by decide⟩) (by intro x h; cases h) (by intro h; cases h) (by decide)
+
+theorem ok₀ : x₀.Ok toy .server 1000 100 st₀ (sndOf evs₀) (rcvOf evs₀) where
+  wf := wf₁
+  fits := ⟨by decide +kernel, by intro t ht; cases ht; decide +kernel⟩
+  values := values₁
+  draw := by decide
+  sid := by decide
+  fresh := by decide +kernel
+  awaited := by decide +kernel
+  mine := by decide +kernel
+  chunks := by decide +kernel
+  carried := by
+    intro s hs
+    have h0 : getStream (SendSide.run st₀ (sndOf evs₀)).streams x₀.sid =
+        some (runS (freshStream true) ((sndOf evs₀).filterMap (proj 0))) :=
+      getStream_run _ st₀ 0 _ (by decide) (by decide +kernel)
+    rw [h0] at hs
+    cases hs
+    decide +kernel
+  delivered := by decide +kernel
+  follows := by decide +kernel
+  last := by decide +kernel
+  bound := by decide +kernel
+
+theorem ok₄ : x₄.Ok toy .server 1000 100 st₀ (sndOf evs₀) (rcvOf evs₀) where
+  wf := wf₆
+  fits := ⟨by decide +kernel, by intro t ht; cases ht⟩
+  values := HeadValues.request m₆ GET ⟨some sHttps, some aCom, some slash⟩ none rfl (by decide)
+    (by intro s h; cases h; exact ⟨sHttps, by decide⟩) (by intro a h; cases h; exact ⟨aCom, by decide⟩)
+    (by intro x h; cases h; exact ⟨slash, by decide⟩) (by intro x h; cases h) (by intro h; cases h) (by decide)
+  draw := by decide
+  sid := by decide
+  fresh := by decide +kernel
+  awaited := by decide +kernel
+  mine := by decide +kernel
+  chunks := by decide +kernel
+  carried := by
+    intro s hs
+    have h0 : getStream (SendSide.run st₀ (sndOf evs₀)).streams x₄.sid =
+        some (runS (freshStream false) ((sndOf evs₀).filterMap (proj 4))) :=
+      getStream_run _ st₀ 4 _ (by decide) (by decide +kernel)
+    rw [h0] at hs
+    cases hs
+    decide +kernel
+  delivered := by decide +kernel
+  follows := by decide +kernel
+  last := by decide +kernel
+  bound := by decide +kernel
+
+/-- the theorem applied to the two exchanges: the digest of stream 0 is `want₁`, stream 4 is handed
+    its own message; the cell is empty, nothing was closed -/
+example :
+    deliveredOf toy .server 1000 (Iso.digest (Iso.obsOf 0 (grun cfg₀ st₀ {} evs₀).2.2))
+      (((grun cfg₀ st₀ {} evs₀).2.1.get 0).rx.env) = want₁ ∧
+    (deliveredOf toy .server 1000 (Iso.digest (Iso.obsOf 4 (grun cfg₀ st₀ {} evs₀).2.2))
+      (((grun cfg₀ st₀ {} evs₀).2.1.get 4).rx.env)).body = [7] ∧
+    (grun cfg₀ st₀ {} evs₀).2.1.cell = none ∧ (grun cfg₀ st₀ {} evs₀).2.1.closed = [] := by
+  have h := C01_end_to_end_interleaved toy toy_laws toy_rt .server 1000 100 [x₀, x₄] st₀ evs₀
+    (by
+      intro x hx
+      simp only [List.mem_cons, List.mem_nil_iff, or_false] at hx
+      rcases hx with rfl | rfl
+      · exact ok₀
+      · exact ok₄)
+    (by
+      have hs : ∀ j ∈ Iso.sidsOf (rcvOf evs₀), j = 0 ∨ j = 4 := by decide +kernel
+      intro j hj
+      rcases hs j hj with rfl | rfl
+      · exact Or.inl ⟨x₀, by simp, rfl⟩
+      · exact Or.inl ⟨x₄, by simp, rfl⟩)
+  refine ⟨(h.1 x₀ (by simp)).2.1.trans (by decide +kernel), ?_, h.2.1, h.2.2⟩
+  have h4 : deliveredOf toy .server 1000 (Iso.digest (Iso.obsOf 4 (grun cfg₀ st₀ {} evs₀).2.2))
+      (((grun cfg₀ st₀ {} evs₀).2.1.get 4).rx.env) = _ := (h.1 x₄ (by simp)).2.1
+  rw [h4]
+  decide +kernel
+
+/-- the history is not a sequential one: the head call of stream 0 answers `Pending` four times
+    before it answers (the HEADERS frame arrives in five chunks), the body task is polled seven times -/
+def isPendingAns : Iso.Obs → Bool
+  | .ans (.res .pending) => true
+  | _ => false
+def isBodyPoll : Iso.Obs → Bool
+  | .body _ _ => true
+  | _ => false
+example : ((Iso.obsOf 0 (grun cfg₀ st₀ {} evs₀).2.2).filter isPendingAns).length = 4 ∧
+    ((Iso.obsOf 0 (grun cfg₀ st₀ {} evs₀).2.2).filter isBodyPoll).length = 7 ∧ evs₀.length = 78 := by
+  decide +kernel
+
+/-! ### two streams polled call by call in one schedule -/
+
+
+theorem scriptOK_of_all (sc : List Ev)
+    (h : sc.all (fun e => match e with | .chunk b => !b.isEmpty | _ => true) = true) : ScriptOK sc := by
+  intro b hb hne
+  subst hne
+  have := List.all_eq_true.mp h _ hb
+  simp at this
+
+theorem noReset_of_all (sc : List Ev)
+    (h : sc.all (fun e => match e with | .reset _ => false | _ => true) = true) : NoReset sc := by
+  intro c hc
+  have := List.all_eq_true.mp h _ hc
+  simp at this
+
+/-- `wire m₆` in 3-byte chunks with polls that find nothing in between -/
+def script₆ : List Ev :=
+  [.pend, .chunk ((wire m₆).take 3), .pend, .chunk (((wire m₆).drop 3).take 3), .chunk ((wire m₆).drop 6), .pend, .fin]
+
+def hd₀ : Hdr := hdrOf toy .server 1000
+
+/-- the schedule: the single polls of the two streams' patterns, taken in turn -/
+def σ₀ : List (Nat × RCall) :=
+  zip2 ((patternCalls .server hd₀ { src := ({}, script₁) }).map (fun c => (0, c)))
+    ((patternCalls .server hd₀ { src := ({}, script₆) }).map (fun c => (4, c)))
+
+def k₀ : Conn :=
+  { cell := none
+    comps := fun i => if i = 0 then { src := ({}, script₁) } else if i = 4 then { src := ({}, script₆) }
+      else { src := ({}, []) } }
+
+theorem carries₀ : Carries toy .server 1000 k₀ σ₀ 0 m₁ h₁ out₁ none script₁ where
+  wf := wf₁
+  fits := ⟨by decide +kernel, by intro t ht; cases ht; decide +kernel⟩
+  head := C01_head_survives toy toy_laws toy_rt .server m₁ h₁ wf₁.header values₁
+  grease := by intro n h; cases h
+  scriptOK := scriptOK_of_all _ (by decide +kernel)
+  noReset := noReset_of_all _ (by decide +kernel)
+  fin := by decide +kernel
+  bytes := by decide +kernel
+  comp := rfl
+  calls := by decide +kernel
+
+theorem carries₄ : Carries toy .server 1000 k₀ σ₀ 4 m₆ h₆ (expectedHead m₆) none script₆ where
+  wf := wf₆
+  fits := ⟨by decide +kernel, by intro t ht; cases ht⟩
+  head := C01_head_survives toy toy_laws toy_rt .server m₆ h₆ wf₆.header values₆
+  grease := by intro n h; cases h
+  scriptOK := scriptOK_of_all _ (by decide +kernel)
+  noReset := noReset_of_all _ (by decide +kernel)
+  fin := by decide +kernel
+  bytes := by decide +kernel
+  comp := rfl
+  calls := by decide +kernel
+
+/-- `C01_recv_of_wire_in_any_schedule` applied: 12 single polls of two streams in turn; stream 0 is
+    answered head, `01`, `02 03`, `04 05`, `None`, trailers; stream 4 is answered `Pending` twice (its
+    script begins with a poll that finds nothing, and another follows the first chunk), then its
+    head, `07`, `None`, no trailers -/
+example :
+    settled (answersFor (Conn.run (fun _ => hd₀) k₀ σ₀).1 0) =
+      [.head (fieldSection h₁), .data [1], .data [2, 3], .data [4, 5], .end_, .trailers (trailerSection [([122], [57])])] ∧
+    settled (answersFor (Conn.run (fun _ => hd₀) k₀ σ₀).1 4) =
+      [.head (fieldSection h₆), .data [7], .end_, .noTrailers] ∧
+    answersFor (Conn.run (fun _ => hd₀) k₀ σ₀).1 4 =
+      [.pending, .pending, .head (fieldSection h₆), .data [7], .end_, .noTrailers] ∧ σ₀.length = 12 := by
+  have hσ : ∀ i, callsFor σ₀ i = [] ∨ ∃ m h out g script, Carries toy .server 1000 k₀ σ₀ i m h out g script := by
+    intro i
+    by_cases h0 : i = 0
+    · subst h0; exact Or.inr ⟨_, _, _, _, _, carries₀⟩
+    · by_cases h4 : i = 4
+      · subst h4; exact Or.inr ⟨_, _, _, _, _, carries₄⟩
+      · left
+        have hall : ∀ e ∈ σ₀, e.1 = 0 ∨ e.1 = 4 := by decide +kernel
+        unfold callsFor
+        rw [List.map_eq_nil_iff, List.filter_eq_nil_iff]
+        intro e he
+        rcases hall e he with h | h <;> simp [h, Ne.symm h0, Ne.symm h4]
+  have h := (C01_recv_of_wire_in_any_schedule toy .server 1000 σ₀ k₀ rfl hσ).1 0 m₁ h₁ out₁ none script₁ carries₀
+  have h' := (C01_recv_of_wire_in_any_schedule toy .server 1000 σ₀ k₀ rfl hσ).1 4 m₆ h₆ _ none script₆ carries₄
+  exact ⟨h.1.trans (by decide +kernel), h'.1.trans (by decide +kernel), by decide +kernel, by decide +kernel⟩
 
 end examples
 
